@@ -1,4 +1,4 @@
-CONSTANT Cfg <- Cfg_pool0
+CONSTANT CfgSet <- S_pool0
 INIT MCInit
 NEXT Next
 CHECK_DEADLOCK FALSE
